@@ -7,6 +7,7 @@ C03 — missing data stays missing and never leaks into valid results.
 `mask_superset`      : a result cell is missing whenever the corresponding cell of any input is missing.
 -/
 import MPilot.Lemmas.ArrR
+import MPilot.Lemmas.MaskSup
 
 namespace MPilot.C03
 open MPilot
@@ -139,5 +140,256 @@ theorem payload_irrelevant (sqrt : Rat → Rat) (c : DataCmd) {xs xs' : List Arr
     split
     · exact ExceptR.eMp _ _
     · exact ExceptR.ok (linMap_R _ _ _ _ ha)
+
+/-! ### missing stays missing -/
+
+/-- arrays of one shape have the same number of cells (true of every numpy array: the number of cells is the product of the shape) -/
+def SameShapeSameSize (xs : List Arr) : Prop := ∀ a ∈ xs, ∀ b ∈ xs, a.shape = b.shape → a.cells.length = b.cells.length
+
+theorem sameSize_of_wf (xs : List Arr) (h : ∀ a ∈ xs, a.cells.length = a.shape.foldl (· * ·) 1) : SameShapeSameSize xs := by
+  intro a ha b hb hs; rw [h a ha, h b hb, hs]
+
+theorem validateShapes_size {ref : LineRef} {xs : List Arr} (h : validateShapes ref xs = .ok ()) (hw : SameShapeSameSize xs) :
+    ∀ a ∈ xs, ∀ b ∈ xs, a.cells.length = b.cells.length := by
+  have hshape : ∀ a ∈ xs, ∀ b ∈ xs, a.shape = b.shape := by
+    cases xs with
+    | nil => simp [validateShapes, eMp] at h
+    | cons x t =>
+      cases t with
+      | nil => intro a ha b hb; simp at ha hb; rw [ha, hb]
+      | cons y rest =>
+        simp only [validateShapes] at h
+        by_cases hall : ((y :: rest).all fun b => b.shape == x.shape) = true
+        · have hall' : ∀ b ∈ y :: rest, b.shape = x.shape := by
+            intro b hb; have := List.all_eq_true.mp hall b hb; simpa using this
+          have key : ∀ a ∈ x :: y :: rest, a.shape = x.shape := by
+            intro a ha
+            rcases List.mem_cons.mp ha with rfl | ha
+            · rfl
+            · exact hall' a ha
+          intro a ha b hb; rw [key a ha, key b hb]
+        · rw [if_neg hall] at h; cases h
+  intro a ha b hb
+  exact hw a ha b hb (hshape a ha b hb)
+
+theorem bind_ok {x : Except Err Unit} {f : Unit → Except Err Arr} {out : Arr} (h : (x >>= f) = .ok out) :
+    x = .ok () ∧ f () = .ok out := by
+  cases x with
+  | error e => cases h
+  | ok u => exact ⟨rfl, h⟩
+
+theorem fuzzyClamp_ok {r : Except Err Arr} {out : Arr} (h : fuzzyClamp r = .ok out) : ∃ o, r = .ok o ∧ out = o.insure (-1) 1 := by
+  unfold fuzzyClamp at h
+  cases r with
+  | error e => cases h
+  | ok o => exact ⟨o, rfl, by simpa [Except.map] using h.symm⟩
+
+theorem naryFold_sup {ref : LineRef} {g : Rat → Rat → Rat} {xs : List Arr} {out : Arr} (hw : SameShapeSameSize xs)
+    (h : naryFold ref g xs = .ok out) : ∀ a ∈ xs, Sup a out := by
+  unfold naryFold at h
+  obtain ⟨hv, h⟩ := bind_ok h
+  have hsz := validateShapes_size hv hw
+  cases xs with
+  | nil => cases h
+  | cons a rest =>
+    simp only at h
+    injection h with h; subst h
+    exact foldArr_sup (bin_left _) (bin_right _) _ a rest a.cells.length (fun b hb => hsz b hb a (List.mem_cons_self ..))
+
+theorem keepMask_sup (a : Arr) (f : Cell → Rat) : LSup a.cells (a.cells.map fun c => ⟨f c, c.mask⟩) :=
+  map_sup (f := fun c => ⟨f c, c.mask⟩) (fun _ h => h) _
+
+theorem allMasked_sup (a : Arr) (f : Cell → Rat) : LSup a.cells (a.cells.map fun c => ⟨f c, true⟩) :=
+  map_sup (f := fun c => ⟨f c, true⟩) (fun _ _ => rfl) _
+
+theorem zScoreBody_sup {sqrt : Rat → Rat} {a out : Arr} {tt ft s e : Rat} (h : zScoreBody sqrt a tt ft s e = .ok out) : Sup a out := by
+  unfold zScoreBody at h
+  split at h
+  · injection h with h; subst h; exact Sup.trans (linMap_sup _ _ _ _ a) (insureArr_sup _ _ _)
+  · injection h with h; subst h; exact allMasked_sup a (fun _ => fillValue)
+
+theorem catBody_sup {a out : Arr} {raw normal : List Num} {d : Num} (h : catBody a raw normal d = .ok out) : Sup a out := by
+  unfold catBody at h
+  split at h
+  · cases h
+  · split at h
+    · cases h
+    · injection h with h; subst h; exact keepMask_sup a _
+
+theorem curveArr_sup (a : Arr) (pts : List (Rat × Rat)) : Sup a (curveArr a pts) := keepMask_sup a _
+
+theorem curveBody_sup {ref : LineRef} {a out : Arr} {raw normal : List Rat} (h : curveBody ref a raw normal = .ok out) : Sup a out := by
+  unfold curveBody at h
+  repeat' (first | split at h | (dsimp only at h))
+  all_goals first | (injection h with h; subst h; exact curveArr_sup a _) | cases h
+
+theorem curveZBody_sup {sqrt : Rat → Rat} {a out : Arr} {z normal : List Num} (h : curveZBody sqrt a z normal = .ok out) : Sup a out := by
+  unfold curveZBody at h
+  repeat' (first | split at h | (dsimp only at h))
+  all_goals first | (injection h with h; subst h; exact curveArr_sup a _) | cases h
+
+theorem meanToMidBody_sup {a out : Arr} {iz : Bool} {normal : List Num} (h : meanToMidBody a iz normal = .ok out) : Sup a out := by
+  unfold meanToMidBody at h
+  repeat' (first | split at h | (dsimp only at h))
+  all_goals first | exact curveBody_sup h | cases h
+
+theorem go_sup {a out : Arr} {tt ft : Option Num} {hl : Bool} (h : exec.go a tt ft hl = .ok out) : Sup a out := by
+  unfold exec.go at h
+  repeat' (first | split at h | (dsimp only at h))
+  all_goals first
+    | (obtain ⟨o, ho, rfl⟩ := fuzzyClamp_ok h; injection ho with ho; subst ho; exact Sup.trans (linMap_sup _ _ _ _ a) (insureArr_sup _ _ _))
+    | cases h
+
+theorem clamp_sup {a : Arr} {r : Except Err Arr} {out : Arr} (hr : ∀ o, r = .ok o → Sup a o) (h : fuzzyClamp r = .ok out) : Sup a out := by
+  obtain ⟨o, ho, rfl⟩ := fuzzyClamp_ok h
+  exact Sup.trans (hr o ho) (insureArr_sup _ _ _)
+
+/-- single-input commands: only the one-array arm delivers a result -/
+macro "one_sup" xs:ident h:ident ha:ident : tactic =>
+  `(tactic| (rcases $xs:ident with _ | ⟨b, _ | ⟨b2, t⟩⟩ <;> simp only [exec] at $h:ident <;> (try (cases $h:ident; done)) <;>
+             (simp only [List.mem_singleton] at $ha:ident; subst $ha:ident)))
+
+/-- **C03 (missing stays missing).**  Whenever a data command delivers a result, that result has a cell for every cell of every input
+and is missing wherever the input is: all 31 commands, any number of inputs, any parameters, any `sqrt`.  (Hypothesis: inputs of one
+shape have equally many cells, as every numpy array has.) -/
+theorem mask_superset (sqrt : Rat → Rat) (c : DataCmd) (xs : List Arr) (hw : SameShapeSameSize xs) (out : Arr)
+    (h : exec sqrt c xs = .ok out) : ∀ a ∈ xs, Sup a out := by
+  intro a ha
+  cases c
+  case sum => simp only [exec] at h; exact naryFold_sup hw h a ha
+  case multiply => simp only [exec] at h; exact naryFold_sup hw h a ha
+  case minimum => simp only [exec] at h; exact naryFold_sup hw h a ha
+  case maximum => simp only [exec] at h; exact naryFold_sup hw h a ha
+  case fuzzyOr => simp only [exec] at h; exact clamp_sup (fun o ho => naryFold_sup hw ho a ha) h
+  case fuzzyAnd => simp only [exec] at h; exact clamp_sup (fun o ho => naryFold_sup hw ho a ha) h
+  case copy => one_sup xs h ha; injection h with h; subst h; exact Sup.refl _
+  case normalizeZScore tt ft s e => one_sup xs h ha; exact zScoreBody_sup h
+  case normalizeCat raw nv d => one_sup xs h ha; exact catBody_sup h
+  case normalizeCurve raw nv => one_sup xs h ha; exact curveBody_sup h
+  case normalizeMeanToMid iz nv => one_sup xs h ha; exact meanToMidBody_sup h
+  case normalizeCurveZScore z nv => one_sup xs h ha; exact curveZBody_sup h
+  case cvtToFuzzyZScore tt ft => one_sup xs h ha; exact clamp_sup (fun o ho => zScoreBody_sup ho) h
+  case cvtToFuzzyCat raw fz d => one_sup xs h ha; exact clamp_sup (fun o ho => catBody_sup ho) h
+  case cvtToFuzzyCurve raw fz => one_sup xs h ha; exact clamp_sup (fun o ho => curveBody_sup ho) h
+  case cvtToFuzzyMeanToMid iz fz => one_sup xs h ha; exact clamp_sup (fun o ho => meanToMidBody_sup ho) h
+  case cvtToFuzzyCurveZScore z fz => one_sup xs h ha; exact clamp_sup (fun o ho => curveZBody_sup ho) h
+  case normalize s e =>
+    one_sup xs h ha
+    split at h
+    · injection h with h; subst h
+      exact map_sup (fun c => MImp.trans (sc_sup _ c) (MImp.trans (sc_sup _ _) (MImp.trans (divSc_sup _ _) (sc_sup _ _)))) _
+    · injection h with h; subst h; exact allMasked_sup _ (fun c => c.val)
+  case cvtToFuzzy tt ft dir =>
+    one_sup xs h ha
+    repeat' (first | split at h | (dsimp only at h))
+    all_goals first | exact go_sup h | cases h
+  case cvtToBinary th dir =>
+    one_sup xs h ha
+    split at h
+    · cases h
+    · exact clamp_sup (fun o ho => by injection ho with ho; subst ho; exact keepMask_sup _ _) h
+  case fuzzyNot =>
+    one_sup xs h ha
+    exact clamp_sup (fun o ho => by injection ho with ho; subst ho; exact mapCells_sup (sc_sup _) _) h
+  case cvtFromFuzzy tt ft =>
+    one_sup xs h ha
+    split at h
+    · cases h
+    · injection h with h; subst h; exact linMap_sup _ _ _ _ _
+  case aMinusB =>
+    rcases xs with _ | ⟨x, _ | ⟨y, _ | ⟨z, t⟩⟩⟩ <;> simp only [exec] at h <;> (try (cases h; done))
+    obtain ⟨hv, h⟩ := bind_ok h
+    have hsz := validateShapes_size hv hw x (by simp) y (by simp)
+    injection h with h; subst h
+    rcases List.mem_cons.mp ha with rfl | ha
+    · exact zip_left (bin_left _) _ _ _ hsz
+    · simp only [List.mem_singleton] at ha; subst ha; exact zip_right (bin_right _) _ _ _ hsz
+  case aDividedByB =>
+    rcases xs with _ | ⟨x, _ | ⟨y, _ | ⟨z, t⟩⟩⟩ <;> simp only [exec] at h <;> (try (cases h; done))
+    obtain ⟨hv, h⟩ := bind_ok h
+    have hsz := validateShapes_size hv hw x (by simp) y (by simp)
+    injection h with h; subst h
+    rcases List.mem_cons.mp ha with rfl | ha
+    · exact zip_left div_left _ _ _ hsz
+    · simp only [List.mem_singleton] at ha; subst ha; exact zip_right div_right _ _ _ hsz
+  case mean =>
+    simp only [exec] at h
+    obtain ⟨hv, h⟩ := bind_ok h
+    have hsz := validateShapes_size hv hw
+    cases xs with
+    | nil => cases h
+    | cons x rest =>
+      simp only at h
+      injection h with h; subst h
+      exact Sup.trans (foldArr_sup (bin_left _) (bin_right _) _ x rest x.cells.length (fun b hb => hsz b hb x (List.mem_cons_self ..)) a ha)
+        (mapCells_sup (divSc_sup _) _)
+  case fuzzyUnion =>
+    simp only [exec] at h
+    obtain ⟨hv, h⟩ := bind_ok h
+    have hsz := validateShapes_size hv hw
+    cases xs with
+    | nil => cases h
+    | cons x rest =>
+      simp only at h
+      refine clamp_sup (fun o ho => ?_) h
+      injection ho with ho; subst ho
+      exact Sup.trans (foldArr_sup (bin_left _) (bin_right _) _ x rest x.cells.length (fun b hb => hsz b hb x (List.mem_cons_self ..)) a ha)
+        (mapCells_sup (divSc_sup _) _)
+  case weightedSum w =>
+    simp only [exec] at h
+    split at h
+    · cases h
+    · rename_i hlen
+      obtain ⟨hv, h⟩ := bind_ok h
+      have hsz := validateShapes_size hv hw
+      injection h with h; subst h
+      have hne : xs ≠ [] := by intro e; subst e; cases ha
+      exact weightedAcc_sup _ a.cells.length w xs (by simpa using hlen) hne (fun b hb => hsz b hb a ha) a ha
+  case weightedMean w =>
+    simp only [exec] at h
+    split at h
+    · cases h
+    · rename_i hlen
+      obtain ⟨hv, h⟩ := bind_ok h
+      have hsz := validateShapes_size hv hw
+      injection h with h; subst h
+      have hne : xs ≠ [] := by intro e; subst e; cases ha
+      exact Sup.trans (weightedAcc_sup _ a.cells.length w xs (by simpa using hlen) hne (fun b hb => hsz b hb a ha) a ha)
+        (mapCells_sup (divSc_sup _) _)
+  case fuzzyWeightedUnion w =>
+    simp only [exec] at h
+    split at h
+    · cases h
+    · rename_i hlen
+      obtain ⟨hv, h⟩ := bind_ok h
+      have hsz := validateShapes_size hv hw
+      have hne : xs ≠ [] := by intro e; subst e; cases ha
+      refine clamp_sup (fun o ho => ?_) h
+      injection ho with ho; subst ho
+      exact Sup.trans (weightedAcc_sup _ a.cells.length w xs (by have := hlen; simp at this; omega) hne (fun b hb => hsz b hb a ha) a ha)
+        (mapCells_sup (divSc_sup _) _)
+  case fuzzySelectedUnion sel k =>
+    simp only [exec] at h
+    obtain ⟨hv, h⟩ := bind_ok h
+    have hsz := validateShapes_size hv hw
+    repeat' (first | split at h | (dsimp only at h))
+    all_goals first
+      | (refine clamp_sup (fun o ho => ?_) h
+         injection ho with ho; subst ho
+         cases xs with
+         | nil => cases ha
+         | cons x rest => exact stackMap_sup _ x rest (fun b hb => hsz b hb x (List.mem_cons_self ..)) a ha)
+      | cases h
+  case fuzzyXOr =>
+    simp only [exec] at h
+    obtain ⟨hv, h⟩ := bind_ok h
+    have hsz := validateShapes_size hv hw
+    split at h
+    · cases h
+    · refine clamp_sup (fun o ho => ?_) h
+      injection ho with ho; subst ho
+      cases xs with
+      | nil => cases ha
+      | cons x rest => exact stackMap_sup _ x rest (fun b hb => hsz b hb x (List.mem_cons_self ..)) a ha
 
 end MPilot.C03
